@@ -160,11 +160,21 @@ var (
 	reFrame = regexp.MustCompile(`(?m)^github\.com/osteele/liquid(/[\w/]+)?\.([\w.()*]+)`)
 )
 
+var reFrameArgs = regexp.MustCompile(`\((0x[0-9a-f]+|\.\.\.).*$`)
+
 func classifyCrash(stderrPath string, exit int) (class, site string) {
+	defer func() { site = reFrameArgs.ReplaceAllString(site, "") }() // argument words are addresses: no part of a stable key
 	b, _ := os.ReadFile(stderrPath)
 	s := string(b)
 	if exit == 3 {
 		return fmt.Sprintf("does not terminate within %d CPU-seconds", HangCPUSeconds), "hang"
+	}
+	if exit == 4 {
+		site = "blocked"
+		if ms := reFrame.FindAllStringSubmatch(s, -1); len(ms) > 0 {
+			site = "blocked" + ms[0][1] + "." + ms[0][2]
+		}
+		return "blocked: neither ends nor uses the processor (a lock never released, a wait nothing ends)", site
 	}
 	class = fmt.Sprintf("worker died (exit %d)", exit)
 	if m := reFatal.FindString(s); m != "" {
@@ -233,6 +243,11 @@ func drive(p *Prop, tier string, seed uint64) int {
 				}
 				mu.Unlock()
 				skip = append(skip, no)
+				if r.exit == 4 && attempt >= 1 {
+					// every blocked case costs the full observation period; two of them are proof enough, the rest of this
+					// shard is not explored in this run (which is a violation already)
+					return
+				}
 				if attempt >= 25 {
 					mu.Lock()
 					inconclusive = append(inconclusive, fmt.Sprintf("shard %d died more than 25 times", s))
